@@ -583,6 +583,23 @@ func (ex *Exec) applyContract(spec *FuncSpec, info calleeInfo, c *ssa.CallCommon
 			ex.assumeHere(g.T)
 		}
 	}
+	// assertions attached to this call site by the function under verification
+	if ex.spec != nil {
+		for _, cl := range ex.spec.Clauses {
+			if cl.Kind == "assert" && cl.Name == fmt.Sprintf("%s %d", info.key, ex.callOrdinal(c, info.key)) {
+				aenv := ex.envAt(ex.cur, nil)
+				for i, a := range args {
+					aenv.vars[fmt.Sprintf("arg%d", i)] = a
+				}
+				aenv.vars["result"] = res
+				for i, f := range res.Fs {
+					aenv.vars[fmt.Sprintf("result%d", i)] = f
+				}
+				g := ex.evalSpec(cl.Expr, aenv)
+				ex.oblige("assert:"+shortKey(info.key), ex.tagsOf(cl), g.T, pos, cl.Text)
+			}
+		}
+	}
 	for _, cl := range ex.pendingBinds {
 		v := ex.evalSpec(cl.Expr, ex.envAt(ex.cur, nil))
 		t := ex.V.specType(cl.Type, ex.pkg)
